@@ -61,6 +61,7 @@ class ProgGen:
 
     def __init__(self, rng):
         self.rng = rng
+        self.small = False   # inside a loop: string expressions may not mention string variables (bounded growth)
         self.n = 0
         self.funcs = []      # (name, [param types], ret type)
         self.lines = []
@@ -113,7 +114,7 @@ class ProgGen:
 
     def str_(self, env, d=0):
         r = self.rng
-        vs = [v for v, t in env if t == "str"]
+        vs = [] if self.small else [v for v, t in env if t == "str"]
         c = r.random()
         if d > 2 or c < 0.25:
             return self.strlit()
@@ -132,11 +133,11 @@ class ProgGen:
             m = r.choice(["to_uppercase()", "to_lowercase()", "trim()", "slice(%d, %d)" % (r.randint(0, 2), r.randint(2, 9)),
                           'replace("a", "%s")' % r.choice(["", "A", "aa"]), 'replace("%s", "-")' % r.choice(["o", "da", "zz"])])
             return "%s.%s" % (v, m)
-        if c < 0.94:
+        if c < 0.94 and not self.small:
             aa = [v for v, t in env if t in ("astr", "anum")]
             if aa:
                 return '%s.join("%s")' % (r.choice(aa), r.choice([",", "", " | "]))
-        if c < 0.97:
+        if c < 0.97 and not self.small:
             aa = [v for v, t in env if t == "astr"]
             if aa:
                 return "%s[%d]" % (r.choice(aa), r.randint(0, 2))
@@ -191,10 +192,12 @@ class ProgGen:
                 vs = [(v, t) for v, t in env if t in ("num", "str") and not v.startswith("i")]
                 if vs:
                     v, t = r.choice(vs)
+                    self.small = in_loop
                     if t == "str" and r.random() < 0.5:
                         out.append("%s%s get %s add %s" % (pad, v, v, self.str_(env, 1)))
                     else:
                         out.append("%s%s get %s" % (pad, v, self.expr(t, env)))
+                    self.small = False
             elif c < 0.62:
                 t = r.choice(["num", "str", "str", "bool"])
                 aa = [v for v, tt in env if tt in ("anum", "astr")]
@@ -228,12 +231,14 @@ class ProgGen:
                     v, t = r.choice(aa)
                     et = "num" if t == "anum" else "str"
                     k = r.random()
+                    self.small = in_loop
                     if k < 0.5:
                         out.append("%s%s.push(%s)" % (pad, v, self.expr(et, env, 1)))
                     elif k < 0.85:
                         out.append("%s%s[%d] get %s" % (pad, v, r.randint(0, 2), self.expr(et, env, 1)))
                     else:
                         out.append("%s%s.reverse()" % (pad, v))
+                    self.small = False
             else:
                 if self.funcs:
                     f = r.choice(self.funcs)
@@ -382,18 +387,19 @@ def parse_lib_records(path):
     return recs
 
 
-def run_lib(env, name, progs):
+def run_lib(env, name, progs, limit=None):
     """progs: list of (id, src).  One library run per program with a placeholder file name."""
     inp = os.path.join(env.work, name + ".in")
     outp = os.path.join(env.work, name + ".out")
     with open(inp, "w") as f:
         for pid, src in progs:
             f.write("P %s %s %s\n" % (pid, hx(src), hx(PLACEHOLDER)))
-    rc, out = common.sh([common.harness_bin(), "pipeline", "lib", inp, outp], timeout=1800)
+    rc, out = common.sh([common.harness_bin(), "pipeline", "lib", inp, outp], timeout=3600,
+                        env={"NSVERIF_CHILD_SECONDS": str(limit)} if limit else None)
     return parse_lib_records(outp), (out if rc else "")
 
 
-def run_cli(mode, src, workdir, tag, release=False):
+def run_cli(mode, src, workdir, tag, release=False, limit=25):
     """Returns (filename shown in diagnostics, rc, stdout bytes, stderr bytes)."""
     exe = common.naija_bin(release)
     e = dict(os.environ)
@@ -403,12 +409,12 @@ def run_cli(mode, src, workdir, tag, release=False):
             path = os.path.join(workdir, "p_%s.ns" % tag)
             with open(path, "w") as f:
                 f.write(src)
-            p = subprocess.run([exe, path], stdin=subprocess.DEVNULL, capture_output=True, timeout=60, env=e)
+            p = subprocess.run([exe, path], stdin=subprocess.DEVNULL, capture_output=True, timeout=limit, env=e)
             return path, p.returncode, p.stdout, p.stderr
         if mode == "eval":
-            p = subprocess.run([exe, "--eval", src], stdin=subprocess.DEVNULL, capture_output=True, timeout=60, env=e)
+            p = subprocess.run([exe, "--eval", src], stdin=subprocess.DEVNULL, capture_output=True, timeout=limit, env=e)
             return "<eval>", p.returncode, p.stdout, p.stderr
-        p = subprocess.run([exe, "-"], input=src.encode(), capture_output=True, timeout=60, env=e)
+        p = subprocess.run([exe, "-"], input=src.encode(), capture_output=True, timeout=limit, env=e)
         return "<stdin>", p.returncode, p.stdout, p.stderr
     except subprocess.TimeoutExpired:
         return None, 124, b"", b"[timeout]"
@@ -433,12 +439,15 @@ def judge_cli(rec, mode, fname, rc, so, se):
     'ok' | 'both-crash' | 'inconclusive' | 'fail'."""
     if rc == 124:
         return "inconclusive", "cli timeout"
+    if rec.get("crash") == "abort" and rec.get("signal") == "14":
+        return "inconclusive", "library run exceeded the harness time limit"
     crashed = rc not in (0, 1)
     if rec.get("crash"):
         if crashed:
+            # the same deterministic program until one of them dies: one output is a prefix of the other
             want = unhx(rec.get("printed", "-")).replace(PLACEHOLDER.encode(), fname.encode())
-            if so != want:
-                return "fail", "library and CLI both crash the interpreter but printed different bytes before: cli=%r lib=%r" % (so[-200:], want[-200:])
+            if not (so.startswith(want) or want.startswith(so)):
+                return "fail", "library and CLI both crash the interpreter but diverged before: cli=%r lib=%r" % (so[-200:], want[-200:])
             return "both-crash", ""
         return "fail", "library pipeline crashes (%s) but the CLI exits %d" % (rec["crash"], rc)
     if crashed:
@@ -468,7 +477,7 @@ def stream_cli(env, progs, res, searching):
     recs, err = run_lib(env, "lib", [(str(i), src) for i, (_, src) in enumerate(progs)])
     if err:
         res["disagreements"].append({"stream": "cli-vs-library", "error": "library harness failed: " + err[-400:]})
-        return
+        return {}
     jobs = [(i, m) for i in range(len(progs)) for m in MODES]
     wd = os.path.join(env.work, "cli")
     os.makedirs(wd, exist_ok=True)
@@ -509,13 +518,14 @@ def stream_cli(env, progs, res, searching):
                 res["samples"].append({"src": src, "mode": m, "status": rc, "stdout": so.decode("utf-8", "replace")[:200]})
     res["extra"]["cli_verdicts"] = stats
     res["extra"]["library_phase_histogram"] = phases
+    return recs
 
 
-def check_one_program(env, src, mode):
-    recs, err = run_lib(env, "one", [("0", src)])
+def check_one_program(env, src, mode, limit=None):
+    recs, err = run_lib(env, "one", [("0", src)], limit=limit)
     if err or "0" not in recs:
         return "inconclusive", "library harness failed"
-    fname, rc, so, se = run_cli(mode, src, env.work, "one")
+    fname, rc, so, se = run_cli(mode, src, env.work, "one", limit=limit or 25)
     return judge_cli(recs["0"], mode, fname or "", rc, so, se)
 
 
@@ -525,7 +535,7 @@ def shrink_program(env, src, mode):
         return src
 
     def pred(c):
-        return check_one_program(env, "\n".join(c) + "\n", mode)[0] == "fail"
+        return check_one_program(env, "\n".join(c) + "\n", mode, limit=3)[0] == "fail"
 
     small = common.ddmin_lines(lines, pred, keep_head=0)
     return "\n".join(small) + "\n"
@@ -534,11 +544,54 @@ def shrink_program(env, src, mode):
 # ------------------------------------------------------------------------------------------
 # stream (b): back-to-back runs through the playground entry point
 
-def run_wasm(env, name, seqs):
-    """seqs: list of (seq id, [(prog id, src)]).  Returns {seq id: [records]}, error text."""
+def read_wiring(name):
+    """The script and capacity that translator/gen_scratch.py extracted from the current source
+    (coq/theories/GenWiring.v), as the word list the harness's scripted replica executes."""
+    txt = open(os.path.join(common.COQ, "theories", "GenWiring.v")).read()
+    m = re.search(r"Definition %s_script : list wev :=\s*\[(.*?)\]\." % name, txt, re.S)
+    c = re.search(r"Definition %s_capacity : Z := (\d+)\." % name, txt)
+    if not m or not c:
+        raise RuntimeError("GenWiring.v: %s_script / %s_capacity not found" % (name, name))
+    words = []
+    for ev in m.group(1).split(";"):
+        ev = ev.strip()
+        mm = re.fullmatch(r"WBorrow \(WNone\)", ev)
+        if mm:
+            words.append("Bn")
+            continue
+        mm = re.fullmatch(r"WBorrow \(WHandle (\d+)\)", ev)
+        if mm:
+            words.append("Bh%s" % mm.group(1))
+            continue
+        if ev == "WDrop":
+            words.append("D")
+            continue
+        mm = re.fullmatch(r"WParse (\d+)", ev)
+        if mm:
+            words.append("P%s" % mm.group(1))
+            continue
+        mm = re.fullmatch(r"WResolve (\d+) (\d+)", ev)
+        if mm:
+            words.append("R%s,%s" % mm.groups())
+            continue
+        mm = re.fullmatch(r"WRun (\d+) (\d+)", ev)
+        if mm:
+            words.append("X%s,%s" % mm.groups())
+            continue
+        raise RuntimeError("GenWiring.v: unknown event %r" % ev)
+    return int(c.group(1)), words
+
+
+def run_wasm(env, name, seqs, scripted=True):
+    """seqs: list of (seq id, [(prog id, src)]).  Returns {seq id: [records]}, error text.
+    scripted: execute the wiring read from the current wasm/src/lib.rs (else the literal copy
+    of the entry point kept in the harness)."""
     inp = os.path.join(env.work, name + ".in")
     outp = os.path.join(env.work, name + ".out")
     with open(inp, "w") as f:
+        if scripted:
+            cap, words = read_wiring("wasm")
+            f.write("W %d %s\n" % (cap, " ".join(words)))
         for sid, ps in seqs:
             f.write("S %s\n" % sid)
             for pid, src in ps:
@@ -565,24 +618,64 @@ def run_wasm(env, name, seqs):
     return got, (out if rc else "")
 
 
-def stream_sequences(env, progs, res, n_seq, seq_len):
+def playground_expected(rec):
+    """What wasm run_source returns for a program, computed from the library record: the
+    rendered diagnostics of the failing phase, or warnings followed by the joined output."""
+    fn = b"playground.ns"
+    if rec.get("crash"):
+        return None
+    if rec["status"] != 0:
+        return unhx(rec["post"]).replace(PLACEHOLDER.encode(), fn)
+    return (unhx(rec["pre"]) + unhx(rec["post"])).replace(PLACEHOLDER.encode(), fn) + unhx(rec["out"])
+
+
+def stream_sequences(env, progs, res, n_seq, seq_len, recs):
     rng = env.rng
     singles = [("a%d" % i, [("%d" % i, src)]) for i, (_, src) in enumerate(progs)]
     got, err = run_wasm(env, "alone", singles)
     if err:
         res["disagreements"].append({"stream": "playground-sequences", "error": "harness failed: " + err[-400:]})
         return
+    # the literal copy of the entry point and the scripted one must agree on a sample
+    lit, err2 = run_wasm(env, "literal", singles[:40], scripted=False)
+    for sid, _ in singles[:40]:
+        a, b = got.get(sid, []), lit.get(sid, [])
+        if [(r.get("end"), r.get("res")) for r in a] != [(r.get("end"), r.get("res")) for r in b]:
+            res["disagreements"].append({"stream": "playground-replica", "error": "scripted replica (wiring read from wasm/src/lib.rs) and the "
+                                         "literal copy of run_source kept in the harness give different results: the entry point changed",
+                                         "program": progs[int(sid[1:])][1]})
+            break
     alone = {}
     crashed = 0
+    vs_lib = {"equal": 0, "skipped": 0}
     for i in range(len(progs)):
         rs = got.get("a%d" % i, [])
         if len(rs) == 1 and rs[0]["end"] == "ok":
             alone[i] = rs[0]
+            want = playground_expected(recs.get(str(i), {"crash": "?"}))
+            if want is None:
+                vs_lib["skipped"] += 1
+            elif canon_overflow(unhx(rs[0]["res"])) != canon_overflow(want):
+                res["failures"].append({"key": "playground-vs-lib:" + common.chash(progs[i][1]), "stream": "playground-vs-library",
+                                        "case": {"src": progs[i][1], "kind": progs[i][0]},
+                                        "observed": "playground entry point returns %r, the library pipeline with separate arenas gives %r"
+                                                    % (unhx(rs[0]["res"])[-200:], want[-200:])})
+            else:
+                vs_lib["equal"] += 1
+                res["evaluations"] += 1
             if rs[0].get("after") != "0,0,0,0":
                 res["failures"].append({"key": "not-restored:" + common.chash(progs[i][1]), "stream": "playground-sequences",
                                         "case": {"src": progs[i][1]}, "observed": "scratch arenas not back at offset 0 / commit 0 after the run: " + str(rs[0].get("after"))})
         else:
             crashed += 1
+            rec = recs.get(str(i), {"crash": "?"})
+            if not rec.get("crash") and len(res["failures"]) < 5:
+                how = rs[0] if rs else {"end": "nothing"}
+                msg = unhx(how.get("msg", "-")).decode("utf-8", "replace") if how.get("msg") else how.get("why", "")
+                res["failures"].append({"key": "playground-crash:" + common.chash(progs[i][1]), "stream": "playground-vs-library",
+                                        "case": {"src": progs[i][1], "kind": progs[i][0]},
+                                        "observed": "playground entry point ends with %s (%s) where the library pipeline finishes with status %d"
+                                                    % (how.get("end"), msg[:200], rec["status"])})
     usable = sorted(alone)
     if not usable:
         return
@@ -628,6 +721,7 @@ def stream_sequences(env, progs, res, n_seq, seq_len):
             ks = set(progs[int(pid)][0] for pid, _ in ps)
             if len(ks) >= 2 and "ok" in ks:
                 res["_nontrivial"].add("seq:" + common.chash("\x00".join(src for _, src in ps)))
+    res["extra"]["playground_vs_library"] = vs_lib
     res["extra"]["sequence_program_kinds"] = kinds
     res["extra"]["programs_crashing_standalone_in_replica"] = crashed
 
@@ -726,6 +820,21 @@ def gen_history(rng, hid, tier, cap):
 FLAGS = ("CORRUPT", "OUTOFBOUNDS", "OVERLAP")
 
 
+def sh_retry(cmd, timeout):
+    """Other checks rebuild the shared nsmodel executable concurrently; while it is being
+    replaced an exec can fail (ETXTBSY / EACCES / ENOENT).  Wait and retry a few times."""
+    import time
+    for attempt in range(6):
+        try:
+            rc, out = common.sh(cmd, timeout=timeout)
+            if rc not in (126, 127):
+                return rc, out
+        except OSError as e:
+            rc, out = 126, str(e)
+        time.sleep(2 + 3 * attempt)
+    return rc, out
+
+
 def run_scratch(env, name, cap, hists, model=True, release=False):
     """One process: `X cap` then the histories in order.  Returns (impl groups, model groups, err)."""
     inp = os.path.join(env.work, name + ".in")
@@ -746,7 +855,7 @@ def run_scratch(env, name, cap, hists, model=True, release=False):
         m = re.match(r"X cap=(\d+) base0=(\d+) base1=(\d+)", li[0])
         minp = os.path.join(env.work, name + ".min")
         open(minp, "w").write("X %d %s %s\n" % (cap, m.group(2), m.group(3)) + body)
-        rc2, o2 = common.sh([common.NSMODEL, "scratch", "0" if release else "1", minp, om], timeout=1800)
+        rc2, o2 = sh_retry([common.NSMODEL, "scratch", "0" if release else "1", minp, om], timeout=1800)
         lm = open(om).read().splitlines() if rc2 == 0 and os.path.exists(om) else None
         if lm is None:
             err = "model rc=%s %s" % (rc2, o2[-400:])
@@ -889,8 +998,8 @@ def correspond(env, searching=False, model=True):
     for k, _ in progs:
         kinds[k] = kinds.get(k, 0) + 1
     res["extra"]["program_kinds"] = kinds
-    stream_cli(env, progs, res, searching)
-    stream_sequences(env, progs, res, n_seq, seq_len)
+    recs = stream_cli(env, progs, res, searching)
+    stream_sequences(env, progs, res, n_seq, seq_len, recs)
     stream_scratch(env, res, n_hist, model, searching)
     res["distinct_nontrivial"] = len(res.pop("_nontrivial"))
     res["rule"] = ("(a) every program x {file, --eval, stdin}: stdout bytes and exit status of target/debug/naija vs the library pipeline with "
@@ -918,6 +1027,15 @@ def replay(env, payload):
         recs, err = run_lib(env, "one", [("0", inner["src"])])
         bad = bool(err) or not lib_record_consistent(recs.get("0", {"crash": "?"}))
         print("program:\n" + inner["src"])
+    elif "src" in inner and case.get("stream") == "playground-vs-library":
+        recs, err = run_lib(env, "one", [("0", inner["src"])])
+        got, err2 = run_wasm(env, "one", [("a", [("0", inner["src"])])])
+        r = got.get("a", [{}])
+        want = playground_expected(recs.get("0", {"crash": "?"}))
+        print("program:\n" + inner["src"])
+        print("playground: %r\nlibrary: %r" % (unhx(r[0].get("res", "-")) if r else None, want))
+        bad = bool(err) or bool(err2) or not r or r[0].get("end") != "ok" or want is None or \
+            canon_overflow(unhx(r[0]["res"])) != canon_overflow(want)
     elif "src" in inner:
         got, err = run_wasm(env, "one", [("a", [("0", inner["src"])])])
         r = got.get("a", [{}])
